@@ -76,11 +76,12 @@ func serverURLs(tier string) []string {
 	schemes := []string{"http", "https"}
 	users := []string{"", "u@", "u:p@", "John%20Doe@"}
 	hosts := []string{"a", "a:8080", "10.0.0.1", "[::1]:80"}
-	paths := []string{"", "/", "/x", "/x%20y", "/x%2Fy", "/%C3%A9"}
-	queries := []string{"", "?q=1", "?a=1&b=2"}
+	// (with characters that cookies or the cookie payload formats treat specially: ';' and '|')
+	paths := []string{"", "/", "/x", "/x%20y", "/x%2Fy", "/%C3%A9", "/x;p=1"}
+	queries := []string{"", "?q=1", "?a=1&b=2", "?p=a|b"}
 	if tier == "thorough" {
-		paths = append(paths, "/x;p=1", "/a,b")
-		queries = append(queries, "?x=1;y=2", "?p=a|b")
+		paths = append(paths, "/a,b", "/a b")
+		queries = append(queries, "?x=1;y=2")
 	}
 	var out []string
 	for _, s := range schemes {
@@ -125,27 +126,49 @@ func (w *world) remove(u *url.URL) {
 	}
 }
 
+// listenerMode: the balancers are configured with a request-rewrite listener that edits the
+// outgoing request's URL in place (a non-default but public option).
+var listenerMode bool
+
 func newWorld(rebalancer bool, enc encoding) *world {
 	w := &world{pool: map[string]bool{}}
+	var chosen *url.URL
 	h := http.HandlerFunc(func(rw http.ResponseWriter, r *http.Request) {
 		w.calls++
 		c := *r.URL
 		w.seen = &c
+		if listenerMode && chosen != nil {
+			w.seen = chosen // what the balancer chose, before the listener edited the request
+		}
 		rw.WriteHeader(200)
 	})
+	listener := func(oldReq, newReq *http.Request) {
+		c := *newReq.URL
+		chosen = &c
+		newReq.URL.Path += "/tenant/x"
+		newReq.URL.RawQuery = "rewritten=1"
+	}
 	ss := roundrobin.NewStickySession(cookieName).SetCookieValue(enc.mk())
 	if rebalancer {
 		rr, err := roundrobin.New(h)
 		if err != nil {
 			panic(err)
 		}
-		rb, err := roundrobin.NewRebalancer(rr, roundrobin.RebalancerStickySession(ss))
+		ro := []roundrobin.RebalancerOption{roundrobin.RebalancerStickySession(ss)}
+		if listenerMode {
+			ro = append(ro, roundrobin.RebalancerRequestRewriteListener(listener))
+		}
+		rb, err := roundrobin.NewRebalancer(rr, ro...)
 		if err != nil {
 			panic(err)
 		}
 		w.f = rb
 	} else {
-		rr, err := roundrobin.New(h, roundrobin.EnableStickySession(ss))
+		lo := []roundrobin.LBOption{roundrobin.EnableStickySession(ss)}
+		if listenerMode {
+			lo = append(lo, roundrobin.RoundRobinRequestRewriteListener(listener))
+		}
+		rr, err := roundrobin.New(h, lo...)
 		if err != nil {
 			panic(err)
 		}
@@ -245,7 +268,7 @@ func urlClass(s string) string {
 }
 
 func (c ctx) violate(kind, detail string, extra map[string]any) {
-	rp := map[string]any{"engine": "enum", "part": "c11", "rebalancer": c.rebalancer, "encoding": c.enc.name, "server": c.server}
+	rp := map[string]any{"engine": "enum", "part": "c11", "rebalancer": c.rebalancer, "encoding": c.enc.name, "server": c.server, "listener": listenerMode}
 	for k, v := range extra {
 		rp[k] = v
 	}
@@ -543,7 +566,7 @@ func Run(tier string, sh lib.Shard, rep *lib.Report) {
 	rep.Bounds["server_urls"] = len(urls)
 	rep.Bounds["encodings"] = len(encs)
 	rep.Rule = "full product server URL (scheme x userinfo x host x path x query) x cookie encoding (raw, hash, AES 16/32 +-ttl, 16 fallback chains) x front (RoundRobin, Rebalancer): session obligations; for a subset of URLs every truncation / single-bit flip / re-encoding / foreign-key cookie and every pool-change sequence up to length 3; non-trivial = requests whose routing was checked"
-	rep.Require("sessions", "stuck_requests", "balanced_requests", "expired_cookies", "mutated_cookies", "pool_change_sequences")
+	rep.Require("sessions", "stuck_requests", "balanced_requests", "expired_cookies", "mutated_cookies", "pool_change_sequences", "sessions_with_rewrite_listener")
 	mutURLs := map[string]bool{}
 	for i, u := range urls {
 		if tier == "thorough" || i%71 == 0 {
@@ -560,7 +583,15 @@ func Run(tier string, sh lib.Shard, rep *lib.Report) {
 					continue
 				}
 				c := ctx{rep, rb, enc, u}
+				listenerMode = false
 				session(c)
+				if k%5 == 0 {
+					// the same obligations with a URL-editing request-rewrite listener configured
+					listenerMode = true
+					session(c)
+					listenerMode = false
+					rep.Count("sessions_with_rewrite_listener")
+				}
 				if mutURLs[u] && !strings.HasPrefix(enc.name, "fallback") {
 					mutations(c)
 					poolChanges(c)
@@ -583,7 +614,9 @@ func Replay(rp map[string]any) (bool, string) {
 		}
 		rep := lib.NewReport("C11", "replay")
 		c := ctx{rep, rp["rebalancer"] == true, enc, rp["server"].(string)}
+		listenerMode = rp["listener"] == true
 		session(c)
+		listenerMode = false
 		if len(rep.Violations) == 0 {
 			mutations(c)
 			poolChanges(c)
